@@ -43,12 +43,21 @@ fn instances() -> Vec<Value> {
     v.push(json!({"v": 1, "next": {"v": 2}}));
     v.push(json!({"t": "a", "v": 3}));
     v.push(json!({"n": {"z": null}}));
+    v.push(json!({"x-a": true}));
+    v.push(json!({"a": null, "x": 1}));
+    v.push(json!({"a": null, "xa": 2, "x-a": 1}));
+    v.push(json!({"a": true, "b": null, "zz": 1}));
+    v.push(json!({"a": null}));
+    v.push(json!([true, null, 1]));
+    v.push(json!(["x"]));
     v
 }
 
 pub fn dump_cases(path: &str) -> i32 {
     let mut schemas = jsongen::all_schemas(false);
     schemas.extend(jsongen::intersection_schemas(true));
+    schemas.extend(jsongen::applicator_split_schemas());
+    schemas.extend(jsongen::unsat_leaf_schemas());
     for it in crate::corpus::json_items() {
         if let crate::engine::GrammarSpec::Json(s) = it.g {
             schemas.push(s);
